@@ -34,6 +34,30 @@ def is_data_read(e):
     return False
 
 
+RAW_VALUE_OPS = ("read_direct", "write_direct", "astype", "__array__", "value", "fields", "iter_chunks")
+
+
+def raw_value_access_rule(cg, rep, R):
+    """no member of the array / view / tag classes transfers element values through the raw h5py handle: that would bypass
+    the calibration, the layer's text conversion and the layer's region handling (shared with C01)"""
+    n = 0
+    for q, ops in sorted(cg.ops.items()):
+        short = q.split(":")[-1]
+        if short.split(".")[0] not in ("DataArray", "DataSet", "DataView", "Tag", "MultiTag", "BaseTag", "Feature"):
+            continue
+        n += 1
+        hit = False
+        for o in ops:
+            if o[0] == "raw" and o[1].split(".")[-1] in RAW_VALUE_OPS or \
+                    (o[0] == "raw" and o[1].split(".")[0] in ("ds",) and o[1].split(".")[-1] in ("__getitem__", "__setitem__")):
+                hit = True
+                rep.bad(R, "raw reader " + short, "%s transfers stored values through the raw h5py object (%s): neither calibration nor the "
+                        "layer's text conversion is applied on this path" % (short, o[1]))
+        if not hit:
+            rep.ok(R, "raw reader " + short)
+    return n
+
+
 def run(M, rep, tier, only=None):
     ctx = Ctx(M, coarse=False)
     ctx.cfg.compose = False
@@ -92,17 +116,7 @@ def run(M, rep, tier, only=None):
                 ok = short in allowed or short.startswith("DimensionLink.") or short.startswith("RangeDimension.")
                 rep.check(R1, "reader " + short, ok, "%s reads array data directly (bypasses the calibrating read funnel)" % short)
 
-    # no member of the array / view / tag classes reads values through the raw h5py handle (that would bypass both the
-    # calibration and the layer's text conversion)
-    for q, ops in sorted(cg.ops.items()):
-        short = q.split(":")[-1]
-        if short.split(".")[0] not in ("DataArray", "DataSet", "DataView", "Tag", "MultiTag", "BaseTag", "Feature"):
-            continue
-        for o in ops:
-            if o[0] == "raw" and o[1].split(".")[-1] in ("read_direct", "astype", "__array__", "value", "fields", "iter_chunks") or \
-                    (o[0] == "raw" and o[1].split(".")[0] in ("ds",) and o[1].split(".")[-1] == "__getitem__"):
-                rep.bad(R1, "raw reader " + short, "%s reads stored values through the raw h5py object (%s): neither calibration nor the "
-                        "layer's text conversion is applied on this path" % (short, o[1]))
+    raw_value_access_rule(cg, rep, R1)
 
     # ---------------------------------------------------------------- R2..R5 on DataArray._read_data
     f = ctx.member("DataArray", "_read_data")
